@@ -17,11 +17,13 @@ LEVEL = 'model_checking'
 RULE = ('state = construction history (declaration order of one country, the other countries canonical); transitions = '
         'declarations executed on the real constructors; oracle: exact rational solution (k=0 library values, k=1..3 solved) '
         'of Model.FinalEquations equal, variable by variable, to that of the canonical order; non-trivial = orders that differ '
-        'from the canonical order in the relative position of at least one pair of interacting sectors (all non-identity orders)')
+        'from the canonical order in the relative position of at least one pair of interacting sectors (all non-identity orders); '
+        'two-country economies additionally: declarations of the two countries interleaved (quick: one block inserted into the other at every position, '
+        'strict alternation, every single declaration moved across; thorough: every merge of the two sequences and of their reversals) x both creation orders of the countries')
 ASSUMPTIONS = [
     'dependencies respected: CentralBank after its Treasury, multi-output firm after the markets in its market_list; '
     'post-declaration calls (AddSupplier, GenerateAssetWeighting, SetExogenous, RegisterCashFlow, initial conditions) stay in a fixed tail',
-    'countries themselves are created in a fixed order',
+    'all Country objects exist before the first sector is declared (sector constructors may name foreign markets); their creation order is varied in the two-country economies',
 ]
 BOUNDS = {
     'quick': {'all_permutations_up_to_decls': 6, 'larger': 'all single moves + transpositions + reversal'},
@@ -124,6 +126,92 @@ def orders_for(decls, tier):
     return out, 'moves'
 
 
+def merges(a, b):
+    """All interleavings of two sequences that keep each sequence's own order."""
+    if not a:
+        yield list(b)
+        return
+    if not b:
+        yield list(a)
+        return
+    for rest in merges(a[1:], b):
+        yield [a[0]] + rest
+    for rest in merges(a, b[1:]):
+        yield [b[0]] + rest
+
+
+def dep_reverse(decls):
+    ids = [d[0] for d in decls]
+    deps = dict(decls)
+    rev = list(reversed(ids))
+    changed = True
+    while changed:
+        changed = False
+        pos = dict((x, i) for i, x in enumerate(rev))
+        for d in ids:
+            for a in deps[d]:
+                if pos[a] > pos[d]:
+                    rev.remove(a)
+                    rev.insert(rev.index(d), a)
+                    changed = True
+                    pos = dict((x, i) for i, x in enumerate(rev))
+    return rev
+
+
+def global_orders(spec, tier):
+    """Two-country economies: the declarations of the two countries interleaved, and the countries created in either order."""
+    ca, cb = spec['countries']
+    A = [[ca['code'], d[0]] for d in topo.declarations(ca)]
+    B = [[cb['code'], d[0]] for d in topo.declarations(cb)]
+    Ar = [[ca['code'], d] for d in dep_reverse(topo.declarations(ca))]
+    Br = [[cb['code'], d] for d in dep_reverse(topo.declarations(cb))]
+    codes = [ca['code'], cb['code']]
+    out = []
+    if tier == 'thorough':
+        for corder in (codes, codes[::-1]):
+            for g in merges(A, B):
+                out.append({'__countries__': corder, '__global__': g})
+        for g in merges(Ar, Br):
+            out.append({'__countries__': codes, '__global__': g})
+    else:
+        # quick: every merge in which one country's block is split at most once (a prefix of B, all of A placed anywhere...),
+        # i.e. A inserted as one block at every position of B, B as one block at every position of A, strict alternation,
+        # and every single declaration of one country moved into every position of the other country's block
+        cand = []
+        for i in range(len(B) + 1):
+            cand.append(B[:i] + A + B[i:])
+        for i in range(len(A) + 1):
+            cand.append(A[:i] + B + A[i:])
+        alt = []
+        for i in range(max(len(A), len(B))):
+            alt += A[i:i + 1] + B[i:i + 1]
+        cand.append(alt)
+        for X, Y in ((A, B), (B, A), (Ar, Br)):
+            for xi in range(len(X)):
+                rest = X[:xi] + X[xi + 1:]
+                for j in range(len(Y) + 1):
+                    g = rest + Y[:j] + [X[xi]] + Y[j:]
+                    cand.append(g)
+        seen = set()
+        for corder in (codes, codes[::-1]):
+            for g in cand:
+                k = (tuple(corder), tuple(map(tuple, g)))
+                if k not in seen and global_ok(spec, g):
+                    seen.add(k)
+                    out.append({'__countries__': corder, '__global__': g})
+    return [o for o in out if global_ok(spec, o['__global__'])]
+
+
+def global_ok(spec, g):
+    pos = dict(((c, d), i) for i, (c, d) in enumerate(g))
+    for c in spec['countries']:
+        for d, deps in topo.declarations(c):
+            for a in deps:
+                if pos[(c['code'], a)] > pos[(c['code'], d)]:
+                    return False
+    return True
+
+
 def units(tier):
     out = []
     for name, spec in structural_specs():
@@ -132,6 +220,10 @@ def units(tier):
             orders, kind = orders_for(decls, tier)
             for i in range(0, len(orders), CHUNK):
                 out.append({'name': name, 'spec': spec, 'country': c['code'], 'orders': orders[i:i + CHUNK], 'kind': kind})
+        if len(spec['countries']) == 2:
+            gl = global_orders(spec, tier)
+            for i in range(0, len(gl), CHUNK):
+                out.append({'name': name, 'spec': spec, 'country': '*', 'orders': gl[i:i + CHUNK], 'kind': 'interleaved'})
     return out
 
 
@@ -161,7 +253,7 @@ def compare(spec, ccode, order):
     base, err = canonical(spec)
     if base is None:
         return 'canonical-' + err.split(':')[0], None
-    sol, err = solve(spec, {ccode: order})
+    sol, err = solve(spec, order if ccode == '*' else {ccode: order})
     if sol is None:
         return 'order-fails', core.violation(
             'order-dependent:' + classify(spec, ccode, order, None),
@@ -184,6 +276,11 @@ def compare(spec, ccode, order):
 def classify(spec, ccode, order, bad):
     """Failing class = the adjacent-in-canonical pair of declarations whose relative order is inverted and that is
     minimal for this order (first inverted pair in canonical numbering)."""
+    if ccode == '*':
+        canon = [x['code'] for x in spec['countries']]
+        if list(order.get('__countries__') or canon) != canon:
+            return 'countries-created-in-another-order'
+        return 'countries-interleaved'
     c = [x for x in spec['countries'] if x['code'] == ccode][0]
     ids = [d[0] for d in topo.declarations(c)]
     pos = dict((x, i) for i, x in enumerate(order))
@@ -197,21 +294,24 @@ def run_unit(unit, tier):
     res = core.new_result()
     dig = core.Digest()
     spec = unit['spec']
-    c = [x for x in spec['countries'] if x['code'] == unit['country']][0]
-    canon_ids = [d[0] for d in topo.declarations(c)]
+    if unit['country'] == '*':
+        canon_ids = None
+    else:
+        c = [x for x in spec['countries'] if x['code'] == unit['country']][0]
+        canon_ids = [d[0] for d in topo.declarations(c)]
     for order in unit['orders']:
-        dig.add((unit['name'], unit['country'], tuple(order)))
+        dig.add((unit['name'], unit['country'], json.dumps(order, sort_keys=True)))
         outcome, v = compare(spec, unit['country'], order)
         res['evaluations'] += 1
         res['states'] += 1
-        res['transitions'] += len(order)
+        res['transitions'] += len(order['__global__']) if canon_ids is None else len(order)
         res['traces'] += 1
         if order != canon_ids:
             res['nontrivial'] += 1
         core.bump(res['outcomes'], unit['name'] + ':' + outcome)
         if v:
             res['violations'].append(v)
-    res['max_depth'] = len(canon_ids)
+    res['max_depth'] = len(canon_ids) if canon_ids is not None else len(unit['orders'][0]['__global__'])
     res['samples'] = [{'economy': unit['name'], 'country': unit['country'], 'order': unit['orders'][-1], 'enumeration': unit['kind']}]
     res['digest'] = dig.hex()
     # report only the shortest explanation per key from this unit
